@@ -45,7 +45,9 @@ def cases(tier, seed):
                     for wdyn in ("scalar", "dict"):
                         for wcon in ("scalar", "dict", "none"):
                             for spec in ("all", "alt", "none"):
-                                out.append(dict(kind=kind, neq=neq, nunk=nunk, samekeys=samekeys, wdyn=wdyn, wcon=wcon, spec=spec))
+                                # weight values as Python floats or as 0-d arrays (both documented as valid)
+                                wform = "array" if (neq + nunk + len(spec) + len(wcon)) % 2 else "float"
+                                out.append(dict(kind=kind, neq=neq, nunk=nunk, samekeys=samekeys, wdyn=wdyn, wcon=wcon, spec=spec, wform=wform))
     out.sort(key=lambda c: (c["neq"] + c["nunk"], c["wdyn"] != "scalar", c["wcon"] != "scalar"))
     return out
 
@@ -133,12 +135,16 @@ def run_case(case):
         if case["wcon"] == "dict":
             return {n: 0.3 + 0.25 * i + 0.1 * j0 for i, n in enumerate(names)}
         return None
+    def form(w):
+        if case.get("wform") != "array" or w is None:
+            return w
+        return {k: jnp.asarray(x) for k, x in w.items()} if isinstance(w, dict) else jnp.asarray(w)
     if kind == "ode":
-        lw = jinns.loss.LossWeightsODEDict(dyn_loss=wd, initial_condition=wc("ic", 0), observations=wc("obs", 1))
+        lw = jinns.loss.LossWeightsODEDict(dyn_loss=form(wd), initial_condition=form(wc("ic", 0)), observations=form(wc("obs", 1)))
         ic = {n: ((0.3, jnp.asarray([0.2 * (i + 1)])) if has(n, "ic") else None) for i, n in enumerate(names)}
         loss = L.quiet(jinns.loss.SystemLossODE, u_dict=u_dict, dynamic_loss_dict=dyn, initial_condition_dict=ic, loss_weights=lw, params_dict=pd)
     else:
-        lw = jinns.loss.LossWeightsPDEDict(dyn_loss=wd, norm_loss=None, boundary_loss=wc("bc", 2), observations=wc("obs", 1), initial_condition=wc("ic", 0))
+        lw = jinns.loss.LossWeightsPDEDict(dyn_loss=form(wd), norm_loss=None, boundary_loss=form(wc("bc", 2)), observations=form(wc("obs", 1)), initial_condition=form(wc("ic", 0)))
         bf = (lambda dx: 0.25) if kind == "statio" else (lambda t, dx: 0.25)
         kw = dict(omega_boundary_fun_dict={n: (bf if has(n, "bc") else None) for n in names},
                   omega_boundary_condition_dict={n: ("dirichlet" if has(n, "bc") else None) for n in names})
